@@ -219,11 +219,18 @@ func (w *c06World) runDialback(out *vlib.Out, pp *c06Parsed, provided string, ge
 		expected := mustCome()
 		limit := 300 * time.Millisecond
 		if expected {
-			limit = 5 * time.Second // it has to come
+			limit = 30 * time.Second // it has to come
 		}
 		for start := time.Now(); o.call == nil; {
 			select {
-			case o.call = <-w.dialback.calls:
+			case c := <-w.dialback.calls:
+				if c.reg != reg {
+					// the dial-back of an earlier registration that showed up after the harness had stopped waiting for it
+					c.release <- errors.New("too late")
+					out.Count("dialback:straggler")
+					continue
+				}
+				o.call = c
 				continue
 			default:
 			}
